@@ -411,7 +411,7 @@ def replay_stream(enabled, thr, ids, sizes, cut, chunk, vanilla=False):
     bad = None
     try:
         for pid, rawb in payloads:
-            k, pkt = native_call(reactor.read_packet, f, 0, timeout=5.0)
+            k, pkt = native_call(reactor.read_packet, f, 0, timeout=10.0)
             if k != 'ok':
                 bad = 'frame %d: %s %s' % (len(got), k, type(pkt).__name__ if k == 'raise' else '')
                 break
@@ -657,7 +657,7 @@ def replay_truncated(n, avail, chunk=1):
     orig = select.select
     select.select = lambda r, w, x, t=None: (r, [], [])
     try:
-        k, v = native_call(make_reactor(False).read_packet, f, 0, timeout=3.0)
+        k, v = native_call(make_reactor(False).read_packet, f, 0, timeout=10.0)
     finally:
         select.select = orig
     bad = None
